@@ -27,6 +27,7 @@ theorem dirtyK_cons (l : Loc K) (w : List (Loc K)) (o : ObjId) :
 structure KWf (h : KHeap K) : Prop where
   refs : ∀ k o, AMap.get h.fwd k = some o → (AMap.get h.post o).isSome
   inj : ∀ k k' o, AMap.get h.fwd k = some o → AMap.get h.fwd k' = some o → k = k'
+  wf_fwd : AMap.WF h.fwd
 
 structure KS (H : KHeap K) (x : KTx K) : Prop where
   refs : ∀ k o, AMap.get x.heap.fwd k = some o → (AMap.get x.heap.post o).isSome
@@ -35,6 +36,7 @@ structure KS (H : KHeap K) (x : KTx K) : Prop where
   base_owner : ∀ o, (AMap.get H.post o).isSome → o.1 ≠ x.me
   base_keep : ∀ o, (AMap.get H.post o).isSome → (AMap.get x.heap.post o).isSome
   base_refs : ∀ k o, AMap.get H.fwd k = some o → (AMap.get H.post o).isSome
+  wf_fwd : AMap.WF x.heap.fwd
   repl : ∀ k o, AMap.get H.fwd k = some o →
     AMap.get x.heap.fwd k = some o ∨
     ((∃ t, AMap.get x.heap.post o = some (t, [])) ∧ dirty x.writes (.post o) = true ∧
@@ -48,6 +50,7 @@ theorem ks_start {H : KHeap K} (hw : KWf H) (me : Nat)
   base_owner := hown
   base_keep := fun _ h => h
   base_refs := hw.refs
+  wf_fwd := hw.wf_fwd
   repl := fun _ _ h => Or.inl h
 
 /-- a step that touches neither the forward tree nor a posting object -/
@@ -60,6 +63,7 @@ theorem ks_same {H : KHeap K} {x x' : KTx K} (h : KS H x) (hf : x'.heap.fwd = x.
   base_owner := by rw [hm]; exact h.base_owner
   base_keep := by rw [hp]; exact h.base_keep
   base_refs := h.base_refs
+  wf_fwd := by rw [hf]; exact h.wf_fwd
   repl := by
     intro k o e
     rw [hf, hp]
@@ -105,6 +109,7 @@ theorem ks_postPut {H : KHeap K} {x : KTx K} (h : KS H x) {w : K} {o : Oid}
     · rfl
     · exact h.base_keep o' e
   base_refs := h.base_refs
+  wf_fwd := h.wf_fwd
   repl := by
     intro k ob e
     rcases h.repl k ob e with l | ⟨⟨t, r1⟩, r2, r3⟩
@@ -140,6 +145,7 @@ theorem ks_fwdErase {H : KHeap K} {x : KTx K} (h : KS H x) {w : K} {o : Oid} {t 
   base_owner := h.base_owner
   base_keep := h.base_keep
   base_refs := h.base_refs
+  wf_fwd := AMap.WF_erase h.wf_fwd w
   repl := by
     intro k ob e
     have hun : ∀ k', AMap.get (AMap.erase x.heap.fwd w) k' ≠ some o := by
@@ -198,6 +204,7 @@ theorem ks_alloc {H : KHeap K} {x : KTx K} (h : KS H x) (p : Tag × List Int) :
       · rfl
       · exact h.base_keep o' e
     · exact h.base_refs
+    · exact h.wf_fwd
     · intro k ob e
       rcases h.repl k ob e with l | ⟨⟨t, r1⟩, r2, r3⟩
       · exact Or.inl l
@@ -236,6 +243,7 @@ theorem ks_fwdSet_new {H : KHeap K} {x : KTx K} (h : KS H x) {w : K} {q : Oid}
   base_owner := h.base_owner
   base_keep := h.base_keep
   base_refs := h.base_refs
+  wf_fwd := AMap.WF_set h.wf_fwd w q
   repl := by
     intro k ob e
     have hqb : q ≠ ob := fun eq => h.base_owner ob (h.base_refs k ob e) (eq ▸ hme)
